@@ -88,7 +88,7 @@ def walk(pkgname):
 try:
     for name, mod in walk("gen"):
         desc = {"messages": {}, "enums": {}, "stubs": {}, "bases": {}}
-        for k, v in vars(mod).items():
+        for k, v in list(vars(mod).items()):          # (instantiating a deprecated message adds __warningregistry__ to the module)
             if not isinstance(v, type) or getattr(v, "__module__", None) != mod.__name__: continue
             try:
                 if issubclass(v, betterproto.Message):
@@ -99,6 +99,25 @@ try:
                         fs.append({"py": f.name, "num": md.number, "ptype": md.proto_type, "map": list(md.map_types or []), "group": md.group or "",
                                    "wraps": md.wraps or "", "optional": bool(md.optional), "hint": hint(hints[f.name])})
                     desc["messages"][k] = fs
+                    # the library's own resolution of the references (Message._type_hints -> cls_by_field, used when parsing) must
+                    # succeed and name the very classes the annotations resolve to
+                    cbf = v()._betterproto.cls_by_field
+                    def leaf(t):
+                        while typing.get_origin(t) is not None:
+                            args = [a for a in typing.get_args(t) if a is not type(None)]
+                            t = args[-1]
+                        return t
+                    for f in dataclasses.fields(v):
+                        md = betterproto.FieldMetadata.get(f)
+                        want = leaf(hints[f.name])
+                        if md.proto_type == "map":
+                            got = cbf.get(f.name + ".value")
+                        elif md.proto_type in ("message", "enum") and not md.wraps:
+                            got = cbf.get(f.name)
+                        else:
+                            continue
+                        if isinstance(want, type) and (issubclass(want, (betterproto.Message, betterproto.Enum))) and got is not want:
+                            out["errors"].append([name, k, "field %s: the library resolves the reference to %r, the annotation to %r" % (f.name, got, want)])
                 elif issubclass(v, betterproto.Enum):
                     desc["enums"][k] = [[m.name, int(m.value)] for m in v.__members__.values()] if False else [[n, int(m.value)] for n, m in v.__members__.items()]
                 elif issubclass(v, betterproto.ServiceStub):
